@@ -389,11 +389,6 @@ func NewRateLimiter(config RateLimiterConfig) *RateLimiter {
 
 // AllowRequest checks if a request should be allowed
 func (rl *RateLimiter) AllowRequest(ip string, connID string) bool {
-	// Check global limit first
-	if !rl.globalLimiter.Allow() {
-		return false
-	}
-
 	// Check per-IP limit
 	if !rl.perIPLimiter.Allow(ip) {
 		return false
@@ -416,7 +411,9 @@ func (rl *RateLimiter) AllowRequest(ip string, connID string) bool {
 		}
 	}
 
-	return true
+	// Check the global limit last so that requests refused by a client's own
+	// limits do not consume capacity shared with other clients
+	return rl.globalLimiter.Allow()
 }
 
 // AllowOperation checks if a specific operation type should be allowed
